@@ -154,6 +154,24 @@ def run(ctx, R, tier):
     else:
         raise AnalysisError("header no longer has 11 fields: the role table of C06-R2 must be re-confirmed")
 
+    # the correlation id travels exactly when the sender has one: the flag bit and the 16 id bytes are set together, on the edge where the context's id is set,
+    # and the all-zero id (no flag) on the other - a message that carries the id without the flag, or the flag with the zero id, decodes to another id than was sent
+    def has_id(want):
+        def pred(atom, pol):
+            return pol is want and unparse(atom).endswith("current_context.correlation_id")
+        return pred
+    cflag = [st for st, t, k in stores_in(snd.node) if k == "aug" and isinstance(st.op, ast.BitOr) and ctx.resolves_to_object(st.value, snd, PROTO + ".FLAGS_CORR_ID")]
+    cstores = [st for st, t, k in stores_in(snd.node) if k == "assign" and unparse(t) == "self.corr_id"]
+    real = [st for st in cstores if "current_context.correlation_id" in unparse(st.value)]
+    zero = [st for st in cstores if st not in real]
+    okc = len(cflag) == 1 and len(real) == 1 and len(zero) >= 1 and \
+        all(scfg.guarded(n, lambda e: edge_has_fact(e, has_id(True))) for st in cflag + real for n in scfg.nodes_for(st)) and \
+        all(scfg.guarded(n, lambda e: edge_has_fact(e, has_id(False))) for st in zero for n in scfg.nodes_for(st))
+    R.check(okc, "C06-R2", "encoder|correlation-id-and-its-flag-go-together", "FLAGS_CORR_ID and the id bytes are set on the edge where the context has a correlation id, the zero id on the other",
+            snd.loc(cflag[0]) if cflag else snd.loc(),
+            "the correlation-id flag and the id bytes are no longer selected by `if current_context.correlation_id`: a request is sent without the id its caller set (the server "
+            "makes up another one), or with a flag that announces an id that is all zeros")
+
     # ---------------------------------------------------------------- R3
     offs = field_offsets(fmt)
     expect = {PROTO + "._protocol_version_bytes": offs[1], PROTO + "._magic_number_bytes": offs[10]}
@@ -242,6 +260,27 @@ def run(ctx, R, tier):
     R.check(okm, "C06-R3", "encoder|annotation-sizes-are-byte-counts", "memoryview values are reduced to byte items (or measured with nbytes) before annotations_size is summed", snd.loc(),
             "annotation sizes are taken with len() of whatever was given: for a memoryview over multi-byte items len() counts items, so the header declares fewer bytes than are written and "
             "the receiver refuses the sender's own message")
+    # ... for EVERY memoryview whose items are wider than a byte: the cast is selected by `isinstance(v, memoryview)` (optionally narrowed by `v.itemsize != 1`), nothing else
+    for c in casts:
+        par = getattr(c, "_parent", None)
+        tst = par.test if isinstance(par, ast.IfExp) and par.body is c else None
+        if tst is None:
+            st_if = enclosing_stmt(c)
+            anc = getattr(st_if, "_parent", None)
+            tst = anc.test if isinstance(anc, ast.If) and st_if in anc.body else None
+        recv = unparse(c.func.value)
+        parts = tst.values if isinstance(tst, ast.BoolOp) and isinstance(tst.op, ast.And) else [tst] if tst is not None else []
+
+        def _is_mv(e):
+            return isinstance(e, ast.Call) and unparse(e.func) == "isinstance" and len(e.args) == 2 and unparse(e.args[0]) == recv and "memoryview" in unparse(e.args[1])
+
+        def _wide(e):
+            return isinstance(e, ast.Compare) and len(e.ops) == 1 and unparse(e.left) == recv + ".itemsize" and isinstance(e.comparators[0], ast.Constant) and e.comparators[0].value == 1 \
+                and isinstance(e.ops[0], (ast.NotEq, ast.Gt))
+        okc = bool(parts) and any(_is_mv(x) for x in parts) and all(_is_mv(x) or _wide(x) for x in parts)
+        R.check(okc, "C06-R3", "encoder|every-wide-memoryview-is-recast", "the byte cast is applied under isinstance(v, memoryview) [and v.itemsize != 1] and under nothing else", snd.loc(c),
+                "the cast to byte items is selected by `%s`: memoryviews over multi-byte items that this test lets through are measured by item count - the header declares fewer "
+                "annotation bytes than are written and the receiver rejects the sender's own message" % (unparse(tst, 70) if tst is not None else "no test at all"))
     lits = sorted({n.value for st in addp.node.body for w in walk_no_nested(st) if isinstance(w, ast.While)
                    for n in ast.walk(w) if isinstance(n, ast.Constant) and isinstance(n.value, int) and not isinstance(n.value, bool)})
     R.check(set(lits) <= {coffs[0][1], csize} and csize in lits, "C06-R3", "decoder|chunk-literals", "the decoder's chunk walk uses only the offsets %d and %d" % (coffs[0][1], csize),
